@@ -124,7 +124,7 @@ fn build_real(env: &Arc<Env>, notif: &Notif, cfg: &Cfg, spec: &TrackSpec) -> STr
     env.suspended.store(true, SeqCst);
     let mut b = TrackBuilder::new(spec.id)
         .metric(SimMetric {
-            opt_calls: 0,
+            seen: Default::default(),
             env: env.clone(),
         })
         .attributes(SimAttrs::new(env.clone(), cfg.default_status))
@@ -211,8 +211,10 @@ fn apply_pre(
         let s_real = build_real(env, notif, cfg, &p.src);
         let s_m = build_model(cfg, &p.src);
         let before = notes_of(notif, m.id);
+        let fired0 = env.fired.load(SeqCst);
         let r = real.merge(&s_real, &p.classes, p.hist);
-        let e = model::merge(m, &s_m, &p.classes, p.hist, cfg, &mut FaultCtx::none());
+        let fired = env.fired.load(SeqCst) > fired0;
+        let e = model::merge(m, &s_m, &p.classes, p.hist, cfg, &mut FaultCtx::observed(fired));
         res.ops += 1;
         if res.violation.is_some() {
             return;
@@ -222,7 +224,7 @@ fn apply_pre(
                 "ret",
                 "track_merge",
                 if r.is_ok() { "ok-expected-err" } else { "err-expected-ok" },
-                format!("fault-free Track::merge returned {:?}, model {:?}", r.map_err(|e| e.to_string()), e),
+                format!("Track::merge (preparation step, fault fired: {fired}) returned {:?}, model {:?}", r.map_err(|e| e.to_string()), e),
             ));
             return;
         }
@@ -297,22 +299,26 @@ pub fn run_track_case(tc: &TrackCase) -> TrackLevelResult {
         if k >= 0 {
             env.arm(k);
         }
-        let mut f = if k >= 0 { FaultCtx::nth(k) } else { FaultCtx::none() };
-        let (r, e) = match &tc.op {
-            TrackOp::AddObs { class, obs, upd } => (
-                real.add_observation(*class, obs.map(|(tag, q)| SimObs { tag, q }), None, upd.clone())
-                    .map_err(|e| e.to_string()),
-                model::add_observation(&mut m, *class, *obs, upd.as_ref(), cfg, &mut f),
-            ),
+        // the real operation first; the model is then told whether a fault fired
+        let r = match &tc.op {
+            TrackOp::AddObs { class, obs, upd } => real
+                .add_observation(*class, obs.map(|(tag, q)| SimObs { tag, q }), None, upd.clone())
+                .map_err(|e| e.to_string()),
             TrackOp::Merge { classes, hist, .. } => {
-                let (sr, sm) = src.as_ref().unwrap();
-                (
-                    real.merge(sr, classes, *hist).map_err(|e| e.to_string()),
-                    model::merge(&mut m, sm, classes, *hist, cfg, &mut f),
-                )
+                let (sr, _) = src.as_ref().unwrap();
+                real.merge(sr, classes, *hist).map_err(|e| e.to_string())
             }
         };
         let count = env.disarm();
+        let fired_now = env.fired.load(SeqCst) > fired0;
+        let mut f = FaultCtx::observed(fired_now);
+        let e = match &tc.op {
+            TrackOp::AddObs { class, obs, upd } => model::add_observation(&mut m, *class, *obs, upd.as_ref(), cfg, &mut f),
+            TrackOp::Merge { classes, hist, .. } => {
+                let (_, sm) = src.as_ref().unwrap();
+                model::merge(&mut m, sm, classes, *hist, cfg, &mut f)
+            }
+        };
         res.fired += env.fired.load(SeqCst) - fired0;
         res.ops += 1;
         if k == -1 {
